@@ -24,6 +24,7 @@ TraceNext ==
     \/ /\ Consume("insert") /\ Insert(Ev.arg) /\ Returned
     \/ /\ Consume("pull") /\ Pull /\ Returned
     \/ /\ Consume("peek") /\ Peek /\ Returned
+    \/ /\ Consume("churn") /\ Churn(Ev.arg, 0) /\ Returned
     \/ /\ Consume("extract") /\ Extract(Ev.arg) /\ Returned
 
 TraceSpec == TraceInit /\ [][TraceNext]_tvars
